@@ -286,7 +286,18 @@ func runCase[E algebra.PrimeGroupElement[E, S], S algebra.PrimeFieldElement[S]](
 	extra func(env kmEnv[E, S], cur, other *mpc.BaseShard[E, S]) []kmFail) *caseRun {
 	out := &caseRun{spec: cs, class: fmt.Sprintf("%s/%s/%c/%s/%s", cs.proto, cs.group, cs.pol.fam, cs.comp, cs.mode)}
 	caseText := cs.text()
+	nonMono := cs.pol.hierNonMonotone()
 	prop := func(key, detail string) {
+		if nonMono {
+			switch key {
+			case "qualified-set-no-reconstruct", "reconstruct-not-dlog", "reconstruct-exponent-not-pk", "reconstruct-differs",
+				"no-qualified-set", "reconstruct-panics", "unqualified-set-reconstructs":
+				// the library induced an MSP for an interleaved hierarchical assignment it is documented to
+				// refuse (hierarchical.CheckConstraints), and the key it generated is not reconstructible
+				key = "hierarchical-nonmonotone-accepted-and-qualified-set-fails"
+				detail = "non-monotone hierarchical ID assignment was not refused; " + detail
+			}
+		}
 		out.mism = append(out.mism, vh.Mismatch{ID: caseText, Kind: "prop", Key: key, Detail: detail, Case: caseText, PropFail: true,
 			What: "property predicate on the implementation (C03: consistent, reconstructible key)"})
 	}
@@ -304,6 +315,9 @@ func runCase[E algebra.PrimeGroupElement[E, S], S algebra.PrimeFieldElement[S]](
 		return out
 	}
 	out.nontrivial = true
+	if nonMono {
+		out.class += "/nonmonotone-accepted"
+	}
 	ids := rd.ids
 	field := algebra.StructureMustBeAs[algebra.PrimeField[S]](g.ScalarStructure())
 	q := field.Order().Big()
@@ -323,6 +337,9 @@ func runCase[E algebra.PrimeGroupElement[E, S], S algebra.PrimeFieldElement[S]](
 		// the library refuses to induce an MSP for this structure (Tassa's conditions on IDs and field
 		// size, ...): a refusal by design, provided the key generation refuses as well
 		out.class = fmt.Sprintf("refused-msp/%s/%c", cs.proto, cs.pol.fam)
+		if nonMono {
+			out.class = "refused-nonmonotone-hierarchical/" + cs.proto // the expected class
+		}
 		out.nontrivial = false
 		out.note = err.Error()
 		ran := len(rd.shards) > 0
@@ -834,6 +851,18 @@ func buildCases(a vh.Args, groups []*groupT) []caseSpec {
 			}
 		}
 	}
+	// hierarchical structures with interleaved (non-monotone) ID assignments: every flavour must refuse at
+	// construction; if one does not, the full predicate decides (hierarchical-nonmonotone-accepted-...)
+	for pi, pol := range nonMonotoneHier() {
+		for gi, g := range useGroups {
+			if !thorough && gi != pi%len(useGroups) {
+				continue
+			}
+			add(caseSpec{proto: "G", group: g.name, pol: pol, comp: string(fiatshamir.Name), mode: "rounds"})
+			add(caseSpec{proto: "C", group: g.name, pol: pol, comp: "-", mode: "rounds"})
+			add(caseSpec{proto: "D", group: g.name, pol: pol, comp: "-", mode: "rounds"})
+		}
+	}
 	// Fischlin compilers (expensive provers): small structures
 	small := policy{fam: 'T', t: 2, ids: []uint64{1, 2}}
 	add(caseSpec{proto: "G", group: useGroups[0].name, pol: small.mapIDs(assignIDs(1, 2)), comp: string(fischlin.Name), mode: "rounds"})
@@ -874,7 +903,7 @@ func main() {
 		defer pprof.StopCPUProfile()
 	}
 	res := vh.NewResult("C03", a.Seed, a.Tier)
-	res.Rule = "honest runs of the real Gennaro DKG (Fiat-Shamir, Fischlin, randomised Fischlin), Canetti DKG and trusted dealer, round by round through CBOR (driver packages) and through the runner API over an in-memory delivery; access structures: threshold, unanimity, CNF, hierarchical, threshold-gate trees of sizes 2..4 (quick) / 2..8 (thorough) under three ID assignments (ordinal, sparse unsorted, >= 2^40); groups k256 + BLS12-381 G1 (quick) / all seven (thorough). Model (Dkg.v extracted) gets the recorded tapes and the induced MSP; compared: shares, verification vectors, public key, public shares, Gennaro broadcasts/unicasts, reconstruction over every subset, NewBaseShard on a shifted share. A case is non-trivial when the access structure was accepted and the protocol ran."
+	res.Rule = "honest runs of the real Gennaro DKG (Fiat-Shamir, Fischlin, randomised Fischlin), Canetti DKG and trusted dealer, round by round through CBOR (driver packages) and through the runner API over an in-memory delivery; access structures: threshold, unanimity, CNF, hierarchical, threshold-gate trees of sizes 2..4 (quick) / 2..8 (thorough) under three ID assignments (ordinal, sparse unsorted, >= 2^40), plus hierarchical structures with interleaved (non-monotone) IDs incl. arithmetic-progression patterns, which every flavour must refuse at construction; groups k256 + BLS12-381 G1 (quick) / all seven (thorough). Model (Dkg.v extracted) gets the recorded tapes and the induced MSP; compared: shares, verification vectors, public key, public shares, Gennaro broadcasts/unicasts, reconstruction over every subset, NewBaseShard on a shifted share. A case is non-trivial when the access structure was accepted and the protocol ran."
 	groups := allGroups()
 	byName := map[string]*groupT{}
 	for _, g := range groups {
@@ -984,7 +1013,7 @@ func main() {
 	for _, r := range runs {
 		if strings.HasPrefix(r.class, "refused") {
 			refused++
-			if refused <= 3 {
+			if refused <= 3 && !r.spec.pol.hierNonMonotone() {
 				res.Note("structure refused by the library (compared as a refusal): %s: %s", r.spec.pol.text(), r.note)
 			}
 		}
